@@ -85,6 +85,8 @@ func runC04(p *core.Prog, r *core.Report) {
 	cx.r2r3r5()
 	c04R4(p, r, fn, "C04.R4")
 	c04R6(p, r, fn, "C04.R6")
+	// the same order inside the layout scheme: content file before the index entry (shared with C07.R3)
+	c07R3(p, r, "C04.R7")
 }
 
 // resolveLit returns the function literal a go statement runs: a literal, or a local variable
